@@ -177,7 +177,7 @@ Section Preserve.
   Hypothesis P_consume : forall n f r s, P s -> wt s = NoTask -> buf s = f :: r ->
     let s1 := fst (consume n f r s) in P (if resume_cond s1 then set_paused s1 false else s1).
   Hypothesis P_marks : forall n s, P s -> P (set_chunk_size n s).
-  Hypothesis P_block : forall s, P s -> wt s = NoTask -> buf s = [] -> eof s = false -> P (set_wt s Waiting).
+  Hypothesis P_block : forall s, P s -> wt s = NoTask -> buf s = [] -> eof s = false -> wait_exc s = None -> P (set_wt s Waiting).
   Hypothesis P_notask : forall s, P s -> P (set_wt s NoTask).
   Hypothesis P_pop : forall s l1 l2, P s -> wt s = NoTask -> splits s = Some (l1 ++ l2) -> P (set_splits s (Some l2)).
   Hypothesis P_unread : forall d s, P s -> wt s = NoTask -> P (unread d s).
@@ -238,7 +238,11 @@ Section Preserve.
   Proof. intros [H1 H2]. split; assumption. Qed.
 
   Lemma block_post k s : CP s -> buf s = [] -> eof s = false -> post (block k s).
-  Proof. intros [H1 H2] Hb He. split; [apply P_block; assumption|reflexivity]. Qed.
+  Proof.
+    intros [H1 H2] Hb He. unfold block. destruct (wait_exc s) eqn:Ex.
+    - split; assumption.
+    - split; [apply P_block; assumption|reflexivity].
+  Qed.
 
   Lemma k_read_post n s : CP s -> post (k_read n s).
   Proof.
